@@ -34,13 +34,17 @@ def _(it, a, info):
 @model('Vec::insert')
 def _(it, a, info):
     v = deref(a[0]); i = a[1]
-    if is_sym(i): raise Unsupported('symbolic insert index')
+    if is_sym(i):
+        if truth(it, z3.UGT(i, len(v.items))): raise RustPanic('insertion index should be <= len (is %d)' % len(v.items))
+        i = small_value(it, i, len(v.items))
     if i > len(v.items): raise RustPanic('insertion index (is %d) should be <= len (is %d)' % (i, len(v.items)))
     v.items.insert(i, a[2]); return UNIT
 @model('Vec::remove')
 def _(it, a, info):
     v = deref(a[0]); i = a[1]
-    if is_sym(i): raise Unsupported('symbolic remove index')
+    if is_sym(i):
+        if truth(it, z3.UGE(i, len(v.items))): raise RustPanic('removal index should be < len (is %d)' % len(v.items))
+        i = small_value(it, i, len(v.items))
     if i >= len(v.items): raise RustPanic('removal index (is %d) should be < len (is %d)' % (i, len(v.items)))
     return v.items.pop(i)
 @model('Vec::clear', 'VecDeque::clear')
@@ -441,11 +445,39 @@ def _(it, a, info): raise RustPanic('unwrap/expect failed')
 def _(it, a, info): raise RustPanic('index out of bounds')
 
 # ------------------------------------------------------------------ hashing
-class HasherState:
-    """hasher modelled as the exact sequence of writes fed to it (a collision-free abstraction of SipHash)"""
-    def __init__(self): self.trace = []
+# A hasher is modelled as a 64-bit z3 term built from uninterpreted functions: new() = K0, each write folds its
+# argument into the state with an uninterpreted W_<kind>, finish() applies Fin.  Equal write sequences give equal
+# hashes by congruence; different sequences are NOT forced equal, i.e. the hasher is treated as collision-free,
+# while genuine arithmetic on hash values (wrapping_add / xor of element hashes) keeps its bit-vector meaning.
+BV64 = z3.BitVecSort(64)
+_UF = {}
+def uf(name, arity=2):
+    f = _UF.get(name)
+    if f is None:
+        f = z3.Function(name, *([BV64] * arity + [BV64])); _UF[name] = f
+    return f
+K0 = z3.BitVec('hasher_k0', 64)
 
-@model('DefaultHasher::new', 'RandomState::build_hasher', 'BuildHasher::build_hasher')
+class HasherState:
+    def __init__(self, h=None): self.h = K0 if h is None else h; self.nwrites = 0
+
+def to64(x):
+    if isinstance(x, bool): return z3.BitVecVal(int(x), 64)
+    if isinstance(x, int): return z3.BitVecVal(x, 64)
+    if isinstance(x, float):
+        import struct
+        return z3.BitVecVal(struct.unpack('<Q', struct.pack('<d', x))[0], 64)
+    if is_sym(x):
+        if z3.is_bool(x): return z3.If(x, z3.BitVecVal(1, 64), z3.BitVecVal(0, 64))
+        if z3.is_fp(x): return z3.fpToIEEEBV(x)
+        if x.size() < 64: return z3.ZeroExt(64 - x.size(), x)
+        return x
+    raise Unsupported('hash of %r' % (x,))
+
+def hwrite(h, kind, x):
+    h.h = uf('W_' + kind)(h.h, to64(x)); h.nwrites += 1
+
+@model('DefaultHasher::new', 'RandomState::build_hasher', 'BuildHasher::build_hasher', 'DefaultHasher::default')
 def _(it, a, info): return Opaque('hasher', HasherState())
 @model('RandomState::new')
 def _(it, a, info): return Opaque('randomstate', None)
@@ -463,18 +495,20 @@ def _(it, a, info):
 def feed(it, v, h, ty=None):
     if isinstance(v, RBox): v = v.cell[0]
     if isinstance(v, (Str, RString)):
-        h.trace.append(('str', tuple(v.ch)))
+        for c in v.ch: hwrite(h, 'strchar', c)
+        hwrite(h, 'strend', 0xff)
     elif isinstance(v, (bool, int, float)) or is_sym(v):
-        h.trace.append(('num', ty if ty in INT_TYS or ty in ('char', 'bool') else 'num', v))
+        t = ty.strip().lstrip('&') if ty else ''
+        hwrite(h, t if t in INT_TYS or t in ('char', 'bool') else 'num', v)
     elif isinstance(v, (Agg, Enum)) and not is_std_value(v):
         hv = Opaque('hasher', h)
         it.call_named('<%s as Hash>::hash::<DefaultHasher>' % v.ty, [Ref([v], 0), Ref([hv], 0)], [None, None], None)
     elif isinstance(v, Enum):
-        h.trace.append(('discr', v.idx))
+        hwrite(h, 'discr', v.idx)
         for x in v.f: feed(it, deref(x), h)
     elif isinstance(v, (Agg, RVec, SliceRef)):
         items = as_items(v)
-        if not isinstance(v, Agg) or v.ty == 'array': h.trace.append(('len', len(items)))
+        if not isinstance(v, Agg) or v.ty == 'array': hwrite(h, 'len', len(items))
         for x in items: feed(it, deref(x), h)
     elif v is UNIT: pass
     else: raise Unsupported('hash of %r' % (v,))
@@ -482,14 +516,28 @@ def feed(it, v, h, ty=None):
 @model('Hasher::finish')
 def _(it, a, info):
     h = hasher_of(a[0])
-    return Opaque('hashvalue', tuple(h.trace))
-for _w in ('write', 'write_u8', 'write_u32', 'write_u64', 'write_usize', 'write_i64', 'write_isize', 'write_str', 'write_length_prefix'):
+    return uf('Fin', 1)(h.h)
+for _w in ('write_u8', 'write_u32', 'write_u64', 'write_usize', 'write_i64', 'write_isize', 'write_u16', 'write_i32', 'write_length_prefix'):
     def _mk(w):
         def f(it, a, info):
-            h = hasher_of(a[0]); x = a[1]
-            h.trace.append((w, tuple(as_chars(x)) if isinstance(deref(x), (Str, RString)) else x)); return UNIT
+            hwrite(hasher_of(a[0]), w, a[1]); return UNIT
         return f
     model('Hasher::' + _w)(_mk(_w))
+@model('Hasher::write_str')
+def _(it, a, info):
+    h = hasher_of(a[0])
+    for c in as_chars(a[1]): hwrite(h, 'strchar', c)
+    hwrite(h, 'strend', 0xff); return UNIT
+@model('Hasher::write')
+def _(it, a, info):
+    h = hasher_of(a[0])
+    for b in as_items(a[1]): hwrite(h, 'byte', b)
+    return UNIT
+@model('Hash::hash_slice')
+def _(it, a, info):
+    h = hasher_of(a[1])
+    for x in as_items(a[0]): feed(it, deref(x), h)
+    return UNIT
 
 # ------------------------------------------------------------------ lazy_static
 @model('Lazy::get')
@@ -500,3 +548,134 @@ def _(it, a, info):
     if key not in cache:
         cache[key] = [it.call_value(a[1], [])]
     return Ref(cache[key], 0)
+
+# ------------------------------------------------------------------ more Vec / slice / Option / Result methods
+@model('Vec::retain', 'Vec::retain_mut')
+def _(it, a, info):
+    v = deref(a[0]); keep = []
+    for i in range(len(v.items)):
+        if truth(it, call_closure_like(it, a[1], [Ref(v.items, i)])): keep.append(v.items[i])
+    v.items[:] = keep; return UNIT
+@model('Vec::dedup')
+def _(it, a, info):
+    v = deref(a[0]); out = []
+    for x in v.items:
+        if out and truth(it, values_equal(it, out[-1], x)): continue
+        out.append(x)
+    v.items[:] = out; return UNIT
+@model('Vec::swap_remove')
+def _(it, a, info):
+    v = deref(a[0]); i = a[1]
+    if i >= len(v.items): raise RustPanic('swap_remove index (is %d) should be < len (is %d)' % (i, len(v.items)))
+    x = v.items[i]; v.items[i] = v.items[-1]; v.items.pop(); return x
+@model('Vec::split_off')
+def _(it, a, info):
+    v = deref(a[0]); i = a[1]
+    if i > len(v.items): raise RustPanic('`at` split index (is %d) should be <= len (is %d)' % (i, len(v.items)))
+    t = v.items[i:]; del v.items[i:]; return RVec(t)
+@model('Vec::resize')
+def _(it, a, info):
+    v = deref(a[0]); n = a[1]
+    if n < len(v.items): del v.items[n:]
+    else: v.items.extend(deep_copy(a[2]) for _ in range(n - len(v.items)))
+    return UNIT
+@model('Vec::last_mut', 'slice::last_mut', 'VecDeque::back_mut')
+def _(it, a, info):
+    v = a[0]; base, lo, hi = it.seq_items(deref(v) if not isinstance(v, SliceRef) else v)
+    return some(Ref(base, hi - 1)) if hi > lo else none()
+@model('Vec::first_mut', 'slice::first_mut', 'VecDeque::front', 'VecDeque::front_mut')
+def _(it, a, info):
+    v = a[0]; base, lo, hi = it.seq_items(deref(v) if not isinstance(v, SliceRef) else v)
+    return some(Ref(base, lo)) if hi > lo else none()
+@model('slice::swap', 'Vec::swap')
+def _(it, a, info):
+    v = a[0]; base, lo, hi = it.seq_items(deref(v) if not isinstance(v, SliceRef) else v); i, j = a[1], a[2]
+    if i >= hi - lo or j >= hi - lo: raise RustPanic('index out of bounds')
+    base[lo + i], base[lo + j] = base[lo + j], base[lo + i]; return UNIT
+@model('slice::split_first')
+def _(it, a, info):
+    v = a[0]; base, lo, hi = it.seq_items(deref(v) if not isinstance(v, SliceRef) else v)
+    return some(Agg('tuple', [Ref(base, lo), SliceRef(base, lo + 1, hi)])) if hi > lo else none()
+@model('slice::split_last')
+def _(it, a, info):
+    v = a[0]; base, lo, hi = it.seq_items(deref(v) if not isinstance(v, SliceRef) else v)
+    return some(Agg('tuple', [Ref(base, hi - 1), SliceRef(base, lo, hi - 1)])) if hi > lo else none()
+@model('slice::concat')
+def _(it, a, info):
+    out = []
+    for x in as_items(a[0]): out.extend(as_items(x))
+    return RVec([deep_copy(x) for x in out])
+@model('slice::sort', 'slice::sort_unstable', 'Vec::sort')
+def _(it, a, info):
+    v = a[0]; base, lo, hi = it.seq_items(deref(v) if not isinstance(v, SliceRef) else v)
+    import functools
+    base[lo:hi] = sorted(base[lo:hi], key=functools.cmp_to_key(lambda x, y: compare(it, x, y))); return UNIT
+
+@model('Option::filter')
+def _(it, a, info):
+    v = a[0]
+    if v.variant == 'Some' and truth(it, call_closure_like(it, a[1], [Ref(v.f, 0)])): return v
+    return none()
+@model('Option::or')
+def _(it, a, info): return a[0] if a[0].variant == 'Some' else a[1]
+@model('Option::or_else')
+def _(it, a, info): return a[0] if a[0].variant == 'Some' else call_closure_like(it, a[1], [])
+@model('Option::and')
+def _(it, a, info): return a[1] if a[0].variant == 'Some' else none()
+@model('Option::xor')
+def _(it, a, info):
+    x, y = a[0], a[1]
+    if (x.variant == 'Some') != (y.variant == 'Some'): return x if x.variant == 'Some' else y
+    return none()
+@model('Option::zip')
+def _(it, a, info):
+    return some(Agg('tuple', [a[0].f[0], a[1].f[0]])) if a[0].variant == 'Some' and a[1].variant == 'Some' else none()
+@model('Option::replace')
+def _(it, a, info):
+    r = a[0]; old = r.get(); r.set(some(a[1])); return old
+@model('Option::get_or_insert_with')
+def _(it, a, info):
+    r = a[0]
+    if r.get().variant == 'None': r.set(some(call_closure_like(it, a[1], [])))
+    return Ref(r.get().f, 0)
+@model('Option::map_or', 'Result::map_or')
+def _(it, a, info):
+    v = a[0]
+    return call_closure_like(it, a[2], [v.f[0]]) if v.variant in ('Some', 'Ok') else a[1]
+@model('Option::map_or_else')
+def _(it, a, info):
+    v = a[0]
+    return call_closure_like(it, a[2], [v.f[0]]) if v.variant == 'Some' else call_closure_like(it, a[1], [])
+@model('Option::is_some_and', 'Result::is_ok_and')
+def _(it, a, info):
+    v = a[0]
+    return v.variant in ('Some', 'Ok') and truth(it, call_closure_like(it, a[1], [v.f[0]]))
+@model('Option::is_none_or')
+def _(it, a, info):
+    v = a[0]
+    return v.variant == 'None' or truth(it, call_closure_like(it, a[1], [v.f[0]]))
+@model('Option::inspect', 'Result::inspect')
+def _(it, a, info):
+    v = a[0]
+    if v.variant in ('Some', 'Ok'): call_closure_like(it, a[1], [Ref(v.f, 0)])
+    return v
+@model('Result::or_else')
+def _(it, a, info):
+    v = a[0]
+    return v if v.variant == 'Ok' else call_closure_like(it, a[1], [v.f[0]])
+@model('Result::and')
+def _(it, a, info): return a[1] if a[0].variant == 'Ok' else a[0]
+@model('Result::or')
+def _(it, a, info): return a[0] if a[0].variant == 'Ok' else a[1]
+@model('Result::expect_err')
+def _(it, a, info):
+    if a[0].variant == 'Ok': raise RustPanic('expect_err on Ok')
+    return a[0].f[0]
+@model('Result::unwrap_or_default')
+def _(it, a, info):
+    if a[0].variant == 'Ok': return a[0].f[0]
+    raise Unsupported('unwrap_or_default')
+@model('Result::iter', 'Option::iter')
+def _(it, a, info):
+    from models_iter import ListIter
+    v = deref(a[0]); return ListIter([Ref(v.f, 0)] if v.variant in ('Ok', 'Some') else [])
